@@ -298,6 +298,18 @@ type wide struct {
 }
 type wide128 [16]int64
 
+// padID names an array of int64 by its non-zero positions.
+func padID(b []byte, pad []int64) []byte {
+	b = append(b, '[')
+	for i, v := range pad {
+		if v != 0 {
+			b = strconv.AppendInt(append(b, ' '), int64(i), 10)
+			b = strconv.AppendInt(append(b, ':'), v, 10)
+		}
+	}
+	return append(b, ']')
+}
+
 func domWide() dom[wide] {
 	var p14, p0 [15]int64
 	p14[14], p0[0] = 1, -1
@@ -305,7 +317,11 @@ func domWide() dom[wide] {
 		vals:  []wide{{K: 0}, {K: 0, F: negZero}, {K: 1}, {Pad: p14}, {S: "x"}, {Pad: p0, S: "x"}},
 		class: []int{0, 0, 1, 2, 3, 4},
 		id: func(w wide) string {
-			return fmt.Sprint(w.Pad, w.K, strconv.Quote(w.S)) + f64id(w.F)
+			b := padID(make([]byte, 0, 48), w.Pad[:])
+			b = strconv.AppendInt(append(b, " K="...), int64(w.K), 10)
+			b = strconv.AppendQuote(append(b, " S="...), w.S)
+			b = strconv.AppendUint(append(b, " F="...), math.Float64bits(w.F), 16)
+			return string(b)
 		}, poison: wide{K: -99, S: "poison"}, scribble: wide{K: 7777, S: "scribble"},
 	}
 }
@@ -314,7 +330,7 @@ func domWide128() dom[wide128] {
 	return dom[wide128]{
 		vals:  []wide128{{}, {0: 1}, {15: 1}, {8: -1}, {0: 1, 15: 1}},
 		class: []int{0, 1, 2, 3, 4},
-		id:    func(w wide128) string { return fmt.Sprint([16]int64(w)) }, poison: wide128{3: -99}, scribble: wide128{4: 7777},
+		id:    func(w wide128) string { return string(padID(make([]byte, 0, 32), w[:])) }, poison: wide128{3: -99}, scribble: wide128{4: 7777},
 	}
 }
 
@@ -329,28 +345,28 @@ const typedRule = "case = (element type, list of indices into that type's value 
 	"group keys and map keys are compared with ==. Helpers: Fold, FoldReverse, Map, MapErr, Filter, Any, All, IndexFunc, Trim*Func, ContainsFunc, DistinctFunc, GroupBy/CountBy (int key), " +
 	"TryGet, SafeGet, SafeGetOr, Last, maps.Clone/Clear/Keys/Values/HasKey with the type as map value; for comparable types also Index, Contains, Distinct, Except, ExceptSet, " +
 	"Trim/TrimLeft/TrimRight (also with the slice itself as the unwanted list), GroupBy/CountBy with the element as key, and maps.Clone/Clear/Keys/Values/HasKey/KeyOf/ContainsValue with the type as map key " +
-	"(compared through sorted iteration, so entries with NaN keys count) and as map value. Left out because the unchanged tree deviates there (reported as findings, see the labels left-out:*): " +
-	"GroupBy/CountBy keyed by a NaN, maps.Clear of a map with NaN keys, Except/ExceptSet while a value that cannot be hashed is in the slice or the list. " +
+	"(compared through sorted iteration, so entries with NaN keys count) and as map value. GroupBy/CountBy keyed by a NaN (a group of its own each time) and maps.Clear of a map with NaN keys are included (both were defects of the pinned tree, fixed). " +
+	"Left out (label left-out:*): Except/ExceptSet while a value that cannot be hashed is in the slice or the list (they hash by design; the definition by == would not panic there). " +
 	"Inputs (incl. spare capacity) must be unchanged by identity after every call; every returned slice/map is overwritten (up to capacity) and the input compared again; Clone is never nil; " +
 	"non-trivial = at least 3 elements and two ==-equal elements"
 
 type tstate[E any] struct {
-	d     dom[E]
-	c     TCase
-	n, m  int
-	idx   []int // the case's indices, reduced
-	cl    []int // their classes (as seen by the harness's callbacks: an irreflexive value has a class of its own)
-	eqc   []int // their classes under ==: the class, or - for an irreflexive value - a number that nothing else has (-(position+1))
-	set   []int // reduced exclude indices
+	d    dom[E]
+	c    TCase
+	n, m int
+	idx  []int // the case's indices, reduced
+	cl   []int // their classes (as seen by the harness's callbacks: an irreflexive value has a class of its own)
+	eqc  []int // their classes under ==: the class, or - for an irreflexive value - a number that nothing else has (-(position+1))
+	set  []int // reduced exclude indices
 	// onceInS: the slice holds the value that must not be compared with itself; onceUsed: the slice or the list holds it;
 	// nanInS: the slice holds an irreflexive value
 	onceInS, onceUsed, nanInS bool
-	back  named[E]
-	s     named[E]
-	snap  []string
-	idOf  map[string]int
-	out   pbt.Outcome
-	zeroE string
+	back                      named[E]
+	s                         named[E]
+	snap                      []string
+	idOf                      map[string]int
+	out                       pbt.Outcome
+	zeroE                     string
 }
 
 func newState[E any](c TCase, d dom[E]) *tstate[E] {
@@ -972,11 +988,16 @@ func runCmp[E comparable](t *tstate[E]) string {
 			t.out.Labels = append(t.out.Labels, "unwanted-list:9..16")
 		}
 	}
-	// GroupBy / CountBy with the element itself as key (hashes; and a NaN key gives groups without members on the unchanged tree: left out)
-	if !t.onceInS && !t.nanInS {
+	// GroupBy / CountBy with the element itself as key (hashes). A key that is not equal to itself (NaN) is a group of its own
+	// every time it appears (the definition is by ==); on the pinned tree such groups came back without members (fixed: 60f15f4)
+	if !t.onceInS {
 		members := map[int][]int{}
 		for pos := 0; pos < n; pos++ {
-			members[t.cl[pos]] = append(members[t.cl[pos]], t.idx[pos])
+			members[t.eqc[pos]] = append(members[t.eqc[pos]], t.idx[pos])
+		}
+		sameKey := func(got, want E) bool { return got == want || (got != got && want != want && d.id(got) == d.id(want)) }
+		if t.nanInS {
+			t.out.Labels = append(t.out.Labels, "GroupBy/CountBy-keyed-by-NaN")
 		}
 		groups := slices.GroupBy(s, func(e E) E { return e })
 		t.out.Evals++
@@ -984,7 +1005,7 @@ func runCmp[E comparable](t *tstate[E]) string {
 			return fmt.Sprintf("GroupBy(s, v->v) (%s): %d groups, want %d", t.describe(), len(groups), len(firstIdx))
 		}
 		for i, g := range groups {
-			if g.Key != d.vals[firstIdx[i]] || !eqStrs(t.ids(g.Values), t.idsAt(members[firstCl[i]])) {
+			if !sameKey(g.Key, d.vals[firstIdx[i]]) || !eqStrs(t.ids(g.Values), t.idsAt(members[firstCl[i]])) {
 				return fmt.Sprintf("GroupBy(s, v->v) (%s): group %d is key %s members %v, want a key == %s and members %v", t.describe(), i, d.id(g.Key), t.ids(g.Values),
 					d.id(d.vals[firstIdx[i]]), t.idsAt(members[firstCl[i]]))
 			}
@@ -995,7 +1016,7 @@ func runCmp[E comparable](t *tstate[E]) string {
 			return fmt.Sprintf("CountBy(s, v->v) (%s): %d entries, want %d", t.describe(), len(counts), len(firstIdx))
 		}
 		for i, c := range counts {
-			if c.Key != d.vals[firstIdx[i]] || c.Count != len(members[firstCl[i]]) {
+			if !sameKey(c.Key, d.vals[firstIdx[i]]) || c.Count != len(members[firstCl[i]]) {
 				return fmt.Sprintf("CountBy(s, v->v) (%s): entry %d is key %s count %d, want a key == %s and count %d", t.describe(), i, d.id(c.Key), c.Count,
 					d.id(d.vals[firstIdx[i]]), len(members[firstCl[i]]))
 			}
@@ -1003,8 +1024,6 @@ func runCmp[E comparable](t *tstate[E]) string {
 		if msg := t.intact("GroupBy/CountBy(s, v->v)"); msg != "" {
 			return msg
 		}
-	} else if t.nanInS {
-		t.out.Labels = append(t.out.Labels, "left-out:GroupBy-CountBy-keyed-by-NaN")
 	}
 	// maps with the type as KEY: element -> last position holding an ==-equal element; every irreflexive element is an entry of its
 	// own that only iteration reaches. The model is the sorted list of "key:value" strings, where a reflexive key is named by its
@@ -1153,16 +1172,17 @@ func runCmp[E comparable](t *tstate[E]) string {
 		if len(cl) != 1+nanEntries || !unchanged() {
 			return fmt.Sprintf("maps.Clone(%s): after deleting every reflexive key from the clone and adding one, the clone has %d entries (want %d) / the original changed: %v", what, len(cl), 1+nanEntries, pairsOf(mk))
 		}
-		// Clear: a map with irreflexive keys is not emptied by the unchanged tree (delete cannot reach them): left out
-		if nanEntries == 0 {
+		// Clear: also of a map with irreflexive keys, which a delete loop cannot reach (pinned tree: left in the map; fixed: 93417dc)
+		{
 			twin := build()
+			if nanEntries > 0 {
+				t.out.Labels = append(t.out.Labels, "Clear-of-map-with-NaN-keys")
+			}
 			maps.Clear(twin)
 			t.out.Evals++
 			if len(twin) != 0 || (twin == nil) != (n == 0 && t.c.Nil) {
 				return fmt.Sprintf("maps.Clear(%s) left %d entries", what, len(twin))
 			}
-		} else {
-			t.out.Labels = append(t.out.Labels, "left-out:Clear-of-map-with-NaN-keys")
 		}
 		if !unchanged() {
 			return fmt.Sprintf("a maps helper modified its input (%s): now %v", what, pairsOf(mk))
@@ -1331,7 +1351,12 @@ var specTypes = pbt.Register(&pbt.Spec[TCase]{
 		"x every subset of them as exclude/unwanted list x m in {1,2}, j = length/2, spare = length%3; then for every type lists of 9, 10, 17, 33 and 65 unwanted/excluded values " +
 		"(strided through the domain, from every starting value) against slices of 0..6 elements; rapid: type drawn, length 0..10 (size classes 0/3/8) over the whole domain, " +
 		"exclude list 0..3 values or (one case in three) 9..72 values, often plus the slice's end values, m 1..4, j 0..n+1, spare 0..3; " + typedRule,
-	Enum: func(shard, shards int, tier string, yield func(TCase) bool) {
+	Enum: func(shard, shards int, tier string, yieldAll func(TCase) bool) {
+		i := 0
+		yield := func(c TCase) bool { // the shards share the space point by point
+			i++
+			return i%shards != shard || yieldAll(c)
+		}
 		for _, ty := range typeNames {
 			ok := enumSlices(3, 4, func(s []int) bool {
 				for sub := 0; sub < 8; sub++ {
@@ -1388,7 +1413,7 @@ var specTypes = pbt.Register(&pbt.Spec[TCase]{
 		return TCase{Type: ty, S: s, Set: set, M: rapid.IntRange(1, 4).Draw(t, "m"), J: rapid.IntRange(0, len(s)+1).Draw(t, "j"),
 			Spare: rapid.IntRange(0, 3).Draw(t, "spare"), Nil: rapid.Bool().Draw(t, "nil")}
 	},
-	Run: RunTyped, Quick: 5000, Thorough: 40000, Replicas: 4, ReplicaEvery: 8,
+	Run: RunTyped, Quick: 2500, Thorough: 40000, Replicas: 4, ReplicaEvery: 16, // quick: two shards
 })
 
 func TestC14Types(t *testing.T) { pbt.Check(t, specTypes) }
